@@ -93,7 +93,7 @@ Definition remove_indentation (s : pystr) : res pystr :=
       let spaces := map leading_space_len
                         (filter (fun l => negb (is_nil l) && negb (str_isspace l)) lines) in
       match list_min spaces with
-      | None => Raise EValueError          (* min([]) — defect D3 *)
+      | None => Ok s                        (* no non-blank line: indentation 0 (after the fix of D3) *)
       | Some n => Ok (join [cLF] (map (drop n) lines))
       end
   end.
